@@ -321,6 +321,84 @@ theorem andSteps_src {α β : Type} (rank tyA tyB : String) (ta tb : Bool) (ap b
     · trivial
     · exact ih i hi
 
+theorem pullStep_mem {β : Type} : ∀ (r : List (Step β)),
+    (∀ i ∈ (pullStep r).1, Step.emit i ∈ r) ∧ (∀ s ∈ (pullStep r).2.2, s ∈ r)
+  | [] => by simp [pullStep]
+  | .emit i :: r => by
+    obtain ⟨h1, h2⟩ := pullStep_mem r
+    constructor
+    · intro j hj
+      simp only [pullStep, List.mem_cons] at hj
+      rcases hj with rfl | hj
+      · simp
+      · simp [h1 j hj]
+    · intro s hs
+      simp only [pullStep] at hs
+      simp [h2 s hs]
+  | .yield c p :: r => by
+    constructor
+    · intro j hj; simp [pullStep] at hj
+    · intro s hs; simp only [pullStep] at hs; simp [hs]
+
+/-- `and_iterator` over a call-free left operand and a lazy right operand: its own uses, increments, and
+    whatever the right operand calls -/
+theorem andStream_src {α β : Type} (rank tyA tyB : String) (ta tb : Bool) (P : List Key)
+    (hA : (rank, tyA) ∈ P) (hB : (rank, tyB) ∈ P) (ap bp : Nat) (a : Fib Int α) (cur : Option (Int × β))
+    (rest : List (Step β)) (hrest : ∀ i, Step.emit i ∈ rest → SrcItem P [] i) :
+    SrcSteps P [] (andStream rank tyA tyB ta tb ap bp a cur rest) := by
+  fun_induction andStream rank tyA tyB ta tb ap bp a cur rest with
+  | case1 => intro i hi; simp at hi; subst hi; trivial
+  | case2 =>
+    intro i hi
+    simp only [List.mem_append, List.mem_map, List.mem_singleton, Step.emit.injEq] at hi
+    rcases hi with ⟨j, hj, rfl⟩ | rfl
+    · exact optUse_src _ _ _ _ _ _ _ hA j hj
+    · trivial
+  | case3 =>
+    intro i hi
+    simp only [List.mem_append, List.mem_map, List.mem_singleton, Step.emit.injEq] at hi
+    rcases hi with ⟨j, hj, rfl⟩ | rfl
+    · exact optUse_src _ _ _ _ _ _ _ hB j hj
+    · trivial
+  | case4 ap bp xa ra ca xb rest ih =>
+    have hp := pullStep_mem rest
+    intro i hi
+    simp only [List.mem_append, List.mem_map, List.mem_cons, Step.emit.injEq, reduceCtorEq, false_or] at hi
+    rcases hi with ⟨j, hj, rfl⟩ | ⟨j, hj, rfl⟩ | hi
+    · rcases hj with hj | hj
+      · exact optUse_src _ _ _ _ _ _ _ hA j hj
+      · exact optUse_src _ _ _ _ _ _ _ hB j hj
+    · exact hrest j (hp.1 j hj)
+    · exact ih (fun j hj => hrest j (hp.2 _ hj)) i hi
+  | case5 ap bp ca xa ra cb xb rest hne hlt ih =>
+    intro i hi
+    simp only [List.mem_append, List.mem_map, List.mem_cons, Step.emit.injEq] at hi
+    rcases hi with ⟨j, hj, rfl⟩ | rfl | hi
+    · exact optUse_src _ _ _ _ _ _ _ hA j hj
+    · trivial
+    · exact ih hrest i hi
+  | case6 ap bp ca xa ra cb xb rest hne hlt ih =>
+    have hp := pullStep_mem rest
+    intro i hi
+    simp only [List.mem_append, List.mem_map, List.mem_cons, Step.emit.injEq] at hi
+    rcases hi with ⟨j, hj, rfl⟩ | rfl | ⟨j, hj, rfl⟩ | hi
+    · exact optUse_src _ _ _ _ _ _ _ hB j hj
+    · trivial
+    · exact hrest j (hp.1 j hj)
+    · exact ih (fun j hj => hrest j (hp.2 _ hj)) i hi
+
+theorem SrcSteps.mono {β : Type} {P Q S : List Key} {steps : List (Step β)} (h : SrcSteps P S steps)
+    (hPQ : ∀ k ∈ P, k ∈ Q) : SrcSteps Q S steps := by
+  intro i hi
+  have := h i hi
+  cases i with
+  | use r ty c pos => exact hPQ _ this
+  | useSaved s r ty c pos => exact this
+  | inc => trivial
+  | save s => exact this
+  | bump s => exact this
+  | sub x => exact this
+
 theorem lfSteps_src {α β : Type} (rankA rankB tyA tyB : String) (ta : Bool) (dfl : β) (b : Fib Int β) :
     ∀ (a : Fib Int α) (i : List Nat),
       SrcSteps [(rankA, tyA), (rankB, tyB)] [] (lfSteps rankA rankB tyA tyB ta dfl b i a) := by
